@@ -18,7 +18,10 @@ ROOT = os.path.dirname(os.path.dirname(os.path.abspath(__file__)))
 REPO = os.environ.get("VERIF_REPO", "/repo")
 SRC = os.path.join(REPO, "rust", "altrios-core", "src")
 VX = os.path.join(ROOT, "vx", "target", "release", "vx")
-BUILD = os.path.join(ROOT, "build")
+# Build outputs never mix source roots and never mix concurrently running checks: /repo builds under /verif/build, a scratch
+# copy (VERIF_REPO) builds inside itself (and disappears with it); each property check works in its own sub-directory SUB.
+BUILD = os.environ.get("VERIF_BUILD") or (os.path.join(ROOT, "build") if os.path.realpath(REPO) == "/repo" else os.path.join(REPO, "vx_build"))
+SUB = os.environ.get("VERIF_BUILD_SUB", "dev")
 
 SEMANTIC = [
     "postcondition not satisfied",
@@ -446,7 +449,7 @@ def expand_derives(group, workdir):
     # copy (VERIF_REPO) builds inside itself, so that nothing stale is ever shared and it disappears with the copy.
     # The artifact is taken from cargo's own JSON report (never the uplifted debug/*.so, which cargo does not refresh for
     # a unit it considers fresh).
-    tdir = os.path.join(BUILD, "pm_target") if os.path.realpath(REPO) == "/repo" else os.path.join(REPO, "pm_target")
+    tdir = os.path.join(BUILD, "pm_target")
     # cargo's freshness test for a path package is mtime-based and relative to the package root: an artifact built from
     # OTHER sources with the same layout can look fresh. A content stamp of the macro sources decides instead.
     pm_src = os.path.join(REPO, "rust", "altrios-core", "altrios-proc-macros")
@@ -768,7 +771,7 @@ def assumption_scan(text):
 def build_group(name, canary=True):
     """extract + assemble; returns dict with paths and assembled objects"""
     group = load_group(name)
-    wd = os.path.join(BUILD, name)
+    wd = os.path.join(BUILD, SUB, name)
     os.makedirs(wd, exist_ok=True)
     items = extract(group, wd)
     preamble_parts = []
